@@ -828,14 +828,17 @@ class merge_plan:
         )
         return [ret[0]]
 
-    def _ensure_livefs_is_loaded(self, restrict):
+    def _ensure_livefs_is_loaded(self, restrict, all_slots=False):
         # do a trick to make the resolver now aware of vdb pkgs if needed
         # check for any matches; none, try and insert vdb nodes.
         l = self.state.match_atom(restrict)
-        if not l:
+        if not l or all_slots:
             # hmm. ok... no conflicts, so we insert in vdb matches
             # to trigger a replace instead of an install
             for pkg in self.livefs_dbs.itermatch(restrict):
+                if l and self.state.state.get_conflicting_slot(pkg) is not None:
+                    # blockers look at every installed match, but never force a second pkg into a taken slot
+                    continue
                 self._dprint("inserting vdb node for %s %s", (restrict, pkg))
                 c = choice_point(restrict, [pkg])
                 state.add_op(c, c.current_pkg, force=True).apply(self.state)
@@ -940,7 +943,7 @@ class merge_plan:
         was_livefs = choices.current_pkg.repo.livefs
         for x in blocks:
             if not was_livefs:
-                self._ensure_livefs_is_loaded(x)
+                self._ensure_livefs_is_loaded(x, all_slots=True)
 
             rewrote_blocker = self.generate_mangled_blocker(choices, x)
             l = self.state.add_blocker(choices, rewrote_blocker, key=x.key)
